@@ -259,6 +259,12 @@ def expect_project(proj, options):
                                 acc = b.get("access") or d.get("access") or default
                                 sel = acc in mdisp and X.ok_doc(b.get("doc"))
                                 ipage = ("interface", b["name"].lower())
+                                if not sel and "module" in [x.lower() for x in b.get("prefix", [])]:
+                                    # the interface of a separate module procedure is also shown with its
+                                    # implementation in the submodule (by reference)
+                                    for t in all_tracers(b):
+                                        X.skip.add(t)
+                                    continue
                                 mark(b.get("doc"), sel, ipage)
                                 if not sel:
                                     X.nopage.append(ipage)
